@@ -6,6 +6,7 @@ import HappyProofs.C02.AllOf
 import HappyProofs.C02.NestedAll
 import HappyProofs.C02.Finish
 import HappyProofs.C02.HooksRun
+import HappyProofs.C02.Late
 /-!
 # C02 — property theorems (process layer)
 
@@ -396,14 +397,18 @@ theorem finish_once (endT : Option Nat) (n : Nat) (s0 : St PS) (h0 : InitOk s0)
 
 /-- **the finishing step**: the segment that returns logs `finish` at the current instant and then runs
     each completion hook of the originating event exactly once, in order, at that same instant (one
-    `hook` entry and one hook event per hook); afterwards the hook list is empty (`finish_once`) -/
+    `hook` entry and one hook event per hook) — the hooks the event had when the process started and
+    then those added to it while the process was in flight, up to and including this last segment;
+    afterwards the hook list is empty (`finish_once`, `inflight_hooks_cleared`) -/
 theorem finishing_step_runs_hooks_once (now : Nat) (e : Eff) (pid tag : Nat) (p : Proc) (acts : List Act)
     (rest : List Seg) (hp : e.ps.procs[pid]? = some p) (hs : p.segs = ⟨acts, .ret⟩ :: rest) :
     (runSegment now e pid tag).ps.obs
-      = (p.hooks.map (fun h => Obs.hook now h)).reverse ++
+      = ((p.hooks ++ lateOf (acts.foldl (runAct now) (segStart now e pid tag p)).ps pid).map
+            (fun h => Obs.hook now h)).reverse ++
           Obs.finish now pid :: (acts.foldl (runAct now) (segStart now e pid tag p)).ps.obs ∧
     (runSegment now e pid tag).specs.length
-      = (acts.foldl (runAct now) (segStart now e pid tag p)).specs.length + p.hooks.length :=
+      = (acts.foldl (runAct now) (segStart now e pid tag p)).specs.length +
+          (p.hooks ++ lateOf (acts.foldl (runAct now) (segStart now e pid tag p)).ps pid).length :=
   ret_runs_hooks_once now e pid tag p acts rest hp hs
 
 -- non-vacuity: in the demo run, process 0 (completion hook 4) has finished once and its hook ran once
@@ -415,22 +420,57 @@ example : ∀ q, finCount (demoProg.initState false).ent.obs q = 0 := fun _ => r
 
 /-- **completion hooks run at most once per attachment, along every run**: for every program, end time,
     number of iterations and hook value `h`, the log holds at most as many `hook _ h` entries as `h` was
-    attached to events.  (Accounting: hook entries + hooks held by unfinished processes ≤ attachments
+    attached to events — before their delivery (`hookOf`) or while their process was in flight
+    (`lateAtt`).  (Accounting: hook entries + hooks held by unfinished processes ≤ attachments
     whose event has been popped; by the engine invariant of C01 an event id is popped at most once.) -/
 theorem hooks_at_most_once (p : Program) (gateCont : Bool) (endT : Option Nat) (n h : Nat) :
     hookRuns (run procMachine endT n (p.initState gateCont)).ent.obs h
-      ≤ att (run procMachine endT n (p.initState gateCont)).ent.hookOf h :=
+      ≤ att (run procMachine endT n (p.initState gateCont)).ent.hookOf h
+        + (run procMachine endT n (p.initState gateCont)).ent.lateAtt.count h :=
   hooks_le_attached endT n _ (initState_inv p gateCont) (initState_hookInv p gateCont) h
 
 /-- the same from any state that satisfies the engine invariant and the hook accounting; both are
     preserved by every loop iteration (`step_preserves`, `step_hookInv`) -/
 theorem hooks_at_most_once_from (endT : Option Nat) (n : Nat) (s : St PS) (inv : Inv s) (hk : HookInv s) (h : Nat) :
-    hookRuns (run procMachine endT n s).ent.obs h ≤ att (run procMachine endT n s).ent.hookOf h :=
+    hookRuns (run procMachine endT n s).ent.obs h
+      ≤ att (run procMachine endT n s).ent.hookOf h + (run procMachine endT n s).ent.lateAtt.count h :=
   hooks_le_attached endT n s inv hk h
 
 -- non-vacuity: in the demo run hook 4 is attached once and has run once
 example :
     let s := run procMachine none 4 (demoProg.initState false)
     hookRuns s.ent.obs 4 = 1 ∧ att s.ent.hookOf 4 = 1 := by decide
+
+/-! ### hooks added after creation, opaque values (statements in `HappyProofs/C02/Late.lean`) -/
+
+/-- a process (event kind 1, delivered at t = 1) that registers completion hook 5 on its own
+    triggering event while it is in flight, sleeps 10 ns and finishes; at t = 5 another handler
+    (kind 2) adds hook 6 to the same event; a third event resolves future 0 with an exception
+    instance on which a second process (kind 3) is parked -/
+def demoLate : Program :=
+  { defs := [⟨0, 1, true, [⟨[.addHook 1 5], .yieldD 10⟩, ⟨[], .ret⟩]⟩,
+             ⟨0, 2, false, [⟨[.addHook 1 6, .resolve 0 (.atom 0 3)], .ret⟩]⟩,
+             ⟨0, 3, true, [⟨[], .yieldF 0⟩, ⟨[], .ret⟩]⟩],
+    pre := [(⟨1, 0, 1, false, 0, 1⟩, 0, false), (⟨2, 0, 3, false, 0, 2⟩, 0, false),
+            (⟨5, 0, 2, false, 0, 3⟩, 0, false)] }
+
+-- non-vacuity of `addHook_in_flight`: after the first delivery process 0 (event 0) is in flight
+example :
+    (run procMachine none 1 (demoLate.initState false)).ent.procs.findIdx? (fun p => p.ev == 0 && !p.done) = some 0 ∧
+    lateOf (run procMachine none 1 (demoLate.initState false)).ent 0 = [5] := by decide
+-- non-vacuity of `addHook_before_delivery`: before the run nothing is in flight
+example : (demoLate.initState false).ent.procs.findIdx? (fun p => p.ev == 0 && !p.done) = none := by decide
+-- `inflight_hook_runs_at_finish` / `inflight_hooks_cleared` / `hooks_at_most_once`: both hooks were
+-- added in flight, each ran exactly once at the finish (t = 11), and the late list is empty
+example :
+    let s := run procMachine none 6 (demoLate.initState false)
+    hookRuns s.ent.obs 5 = 1 ∧ hookRuns s.ent.obs 6 = 1 ∧ s.ent.lateAtt.count 5 = 1 ∧ s.ent.lateAtt.count 6 = 1 ∧
+    att s.ent.hookOf 5 = 0 ∧ lateOf s.ent 0 = [] ∧
+    s.ent.obs.any (fun o => match o with | .hook 11 6 => true | _ => false) = true := by decide
+-- `resumed_value_logged`: the process parked on future 0 is resumed at t = 5 with the exception
+-- instance as a plain value
+example :
+    (run procMachine none 6 (demoLate.initState false)).ent.obs.any
+      (fun o => match o with | .resume 5 1 (.atom 0 3) _ => true | _ => false) = true := by decide
 
 end HappyModel.C01
